@@ -2,8 +2,6 @@ package geom
 
 import (
 	"math"
-
-	polyclip "github.com/ctessum/polyclip-go"
 )
 
 // MultiLineString is a holder for multiple related LineStrings.
@@ -55,7 +53,7 @@ func (ml MultiLineString) Clip(p Polygonal) Linear {
 	// same junctions) would close up into a ring and be lost.
 	o := make(MultiLineString, 0, len(ml))
 	for _, l := range ml {
-		pTemp := Polygon{Path(l)}.op(p, polyclip.CLIPLINE)
+		pTemp := clipLine(l, p)
 		for _, pp := range pTemp {
 			o = append(o, LineString(pp[0:len(pp)-1]))
 		}
